@@ -1,22 +1,25 @@
-(* Model/FrontMatter.v — strings::split_off_front_matter, strings::trim_start_match (src/strings.rs),
-   plus the arithmetic of the `feed` prologue that the end-to-end check needs (`lines` = number of
-   LF bytes of the front matter, added to line_number).
+(* Model/FrontMatter.v — strings::split_off_front_matter, strings::line_at, strings::count_line_endings,
+   strings::trim_start_match (src/strings.rs), the code after the repair `fix: front matter is cut by lines`
+   (repo_fix_fm_1.patch).  The feed prologue that uses them is Model/Blocks.v `front_matter_prologue`.
 
    Faithful to the code as written:
    * `s = trim_start_match(s, BOM)`: ONE leading U+FEFF is stripped and every later slice is a slice
      of the STRIPPED string (the returned front matter never contains the BOM).
-   * `start` is a byte index into `s`; every `s[start..]` / `s[..start]` is a checked slice: Rust
-     panics unless `start` is a char boundary of `s` (`start == 0 || start == len ||
-     (s[start] as i8) >= -0x40`, and `start <= len`).  Each one is an explicit `Panic` here.
-   * `str::find(pat)` is the leftmost occurrence of `pat` as a byte substring.
-   * the closer search is the chain  find(LF d CR LF) .or_else find(LF d LF) .or_else find(LF d),
-     each over the WHOLE remainder `s[start..]` after the opening line (the first alternative that
-     matches anywhere wins, not the leftmost match overall).
-   * after the closer: `start == len` returns (s, empty); otherwise a line end is REQUIRED (else
-     None) and one further LF / CRLF is absorbed.
+   * `end`, `start`, `next` are byte indices into `s`.  Every `&s[a..b]`, `&s[..n]`, `&s[n..]` is a checked
+     str slice: Rust panics unless the indices are ordered, at most the length, and char boundaries of `s`
+     (`n == 0 || n == len || (s[n] as i8) >= -0x40`).  Each one is an explicit `Panic` here.  `bytes[end]`
+     and `bytes[end..]` are byte-slice accesses: they panic when out of range only.
+   * `line_at(s, start)`: `end` runs from `start` to the first line-end byte (LF or CR) or the length; the
+     next line starts after CR LF (2 bytes), after a single LF or CR (1 byte), or nowhere (end of input).
+   * the opening line must be exactly the delimiter and terminated (`end == line.len()` means that line_at
+     consumed no line ending); the loop walks the later lines until one is exactly the delimiter, and gives up
+     when `end` reaches the length (a closing line that is the unterminated last line is found before
+     that test fires); one further EMPTY line is absorbed (`line.is_empty()`).
+   * the loop is modelled with fuel `S (len s)`; Proofs/FrontMatterProofs.v shows it never runs out.
    NO proofs in this file. *)
 From Coq Require Import List NArith Bool Strings.String.
 From V Require Import Base.Bytes Base.Res Gen.FrontMatterGen.
+From V Require Model.Strings.
 Import ListNotations.
 Local Open Scope string_scope.
 Local Open Scope list_scope.
@@ -31,18 +34,6 @@ Definition strip_prefix (s pat : bytes) : option bytes :=
 
 Definition trim_start_match (s pat : bytes) : bytes :=
   match strip_prefix s pat with Some r => r | None => s end.
-
-(* str::find(&str): index of the leftmost occurrence *)
-Fixpoint find (s pat : bytes) : option nat :=
-  if starts_with s pat then Some O
-  else match s with
-       | [] => None
-       | _ :: s' => match find s' pat with Some n => Some (S n) | None => None end
-       end.
-
-(* Option::or_else *)
-Definition or_else {A} (a : option A) (f : unit -> option A) : option A :=
-  match a with Some x => Some x | None => f tt end.
 
 (* str::is_char_boundary *)
 Definition is_cont_byte (b : byte) : bool := in_range 128 191 b.   (* (b as i8) < -0x40 *)
@@ -61,43 +52,66 @@ Definition slice_from (s : bytes) (n : nat) : res bytes :=
 Definition slice_to (s : bytes) (n : nat) : res bytes :=
   if is_char_boundary s n then Ok (firstn n s) else Panic "strings.rs:split_off_front_matter:slice_to".
 
-(* `if t.starts_with('\n') { 1 } else if t.starts_with("\r\n") { 2 } else <none>` *)
-Definition line_end_len (t : bytes) : option nat :=
-  if starts_with t fm_lf then Some 1
-  else if starts_with t fm_crlf then Some 2
-  else None.
+(* &s[a..b] *)
+Definition fm_slice (s : bytes) (a b : nat) : res bytes :=
+  if Nat.leb a b && is_char_boundary s a && is_char_boundary s b then Ok (firstn (b - a) (skipn a s))
+  else Panic "strings.rs:line_at:slice".
+
+(* &bytes[n..] of a byte slice: only the range is checked *)
+Definition byte_slice_from (s : bytes) (n : nat) : res bytes :=
+  if Nat.leb n (List.length s) then Ok (skipn n s) else Panic "strings.rs:line_at:bytes[end..]".
+
+(* `while end < bytes.len() && !is_line_end_char(bytes[end]) { end += 1; }`; t is bytes[end..] *)
+Fixpoint scan_line_end (t : bytes) (end_ : nat) : nat :=
+  match t with
+  | [] => end_
+  | b :: r => if Model.Strings.is_line_end_char b then end_ else scan_line_end r (S end_)
+  end.
+
+(* strings::line_at (named fm_line_at: Spec/SourcePos.v has a line_at of its own) *)
+Definition fm_line_at (s : bytes) (start : nat) : res (bytes * nat) :=
+  let end_ := scan_line_end (skipn start s) start in
+  do tail <- byte_slice_from s end_;
+  let next := if starts_with tail fm_crlf then end_ + 2
+              else if Nat.ltb end_ (List.length s) then end_ + 1
+              else end_ in
+  do line <- fm_slice s start end_;
+  Ok (line, next).
+
+(* the `loop`: Some end = the offset after the closing line, None = `return None` *)
+Fixpoint find_closing_line (fuel : nat) (s delimiter : bytes) (end_ : nat) : res (option nat) :=
+  match fuel with
+  | O => OutOfFuel
+  | S fuel' =>
+    if Nat.eqb end_ (List.length s) then Ok None else
+    do ln <- fm_line_at s end_;
+    if bytes_eqb (fst ln) delimiter then Ok (Some (snd ln))
+    else find_closing_line fuel' s delimiter (snd ln)
+  end.
 
 Definition split_off_front_matter (s0 delimiter : bytes) : res (option (bytes * bytes)) :=
   let s := trim_start_match s0 fm_bom in
-  if negb (starts_with s delimiter) then Ok None else
-  let start := List.length delimiter in
-  do t <- slice_from s start;
-  match line_end_len t with
+  do l0 <- fm_line_at s 0;
+  if negb (bytes_eqb (fst l0) delimiter) || Nat.eqb (snd l0) (List.length (fst l0)) then Ok None else
+  do c <- find_closing_line (S (List.length s)) s delimiter (snd l0);
+  match c with
   | None => Ok None
-  | Some k =>
-    let start := start + k in
-    (* the three finds slice s at the same index; one check stands for all three *)
-    do t1 <- slice_from s start;
-    match or_else (find t1 (fm_lf ++ delimiter ++ fm_crlf))
-            (fun _ => or_else (find t1 (fm_lf ++ delimiter ++ fm_lf))
-            (fun _ => find t1 (fm_lf ++ delimiter))) with
-    | None => Ok None
-    | Some n =>
-      let start := start + (n + 1 + List.length delimiter) in
-      if Nat.eqb start (List.length s) then Ok (Some (s, [])) else
-      do t2 <- slice_from s start;
-      match line_end_len t2 with
-      | None => Ok None
-      | Some k2 =>
-        let start := start + k2 in
-        do t3 <- slice_from s start;
-        let start := start + match line_end_len t3 with Some k3 => k3 | None => 0 end in
-        do fm <- slice_to s start;
-        do rest <- slice_from s start;
-        Ok (Some (fm, rest))
-      end
-    end
+  | Some end_ =>
+    do l1 <- fm_line_at s end_;
+    let end_ := match fst l1 with [] => snd l1 | _ :: _ => end_ end in
+    do fm <- slice_to s end_;
+    do rest <- slice_from s end_;
+    Ok (Some (fm, rest))
   end.
 
-(* feed prologue: `lines = front_matter.bytes().filter(|b| b == LF).count()`; `line_number += lines` *)
+(* strings::count_line_endings: the bytes that are LF, or CR not followed by LF *)
+Fixpoint count_line_endings (s : bytes) : nat :=
+  match s with
+  | [] => 0
+  | b :: r =>
+    (if beqb b x0a || (beqb b x0d && negb (match r with b2 :: _ => beqb b2 x0a | [] => false end)) then 1 else 0)
+    + count_line_endings r
+  end.
+
+(* the number of LF bytes (what the feed prologue counted before the repair; kept for the checks) *)
 Definition count_lf (s : bytes) : nat := List.length (filter (fun b => beqb b x0a) s).
